@@ -212,10 +212,15 @@ def _run_cwrite(case, ctx):
         if ns >= 6:
             sb, g = 2, 5
             pieces, k = [], 0
-            for nr, ii, dat in fil.read_plan(gulp=g, skipback=sb, quiet=True, description="v"):
-                arr = np.array(dat, dtype=np.float64).reshape(-1, nch)
-                pieces.append(arr if k == 0 else arr[sb:])
-                k += 1
+            try:
+                for nr, ii, dat in fil.read_plan(gulp=g, skipback=sb, quiet=True, description="v"):
+                    arr = np.array(dat, dtype=np.float64).reshape(-1, nch)
+                    pieces.append(arr if k == 0 else arr[sb:])
+                    k += 1
+            except Exception as exc:  # noqa: BLE001
+                ctx.violation(f"readback-plan-overlap-raised:{label}:{type(exc).__name__}", f"read_plan(gulp={g}, skipback={sb}) over the product raised {fmt_exc(exc)} after {k} block(s)", case)
+                os.unlink(out)
+                return
             gotp = np.concatenate(pieces)
             ctx.count("readback_overlapping_plan")
             if gotp.shape != X.shape or not np.array_equal(gotp, X.astype(np.float64)):
